@@ -57,8 +57,8 @@ Variable K : kinds.
 Variable rs : list rule.
 Variable toks : list rtok.
 Variable keywords soft_keywords : list string.
-Variable aeval : action -> list (string * value) -> value.
-Variable item_name : nitem -> option string.
+Variable aeval : alt -> list value -> list (string * value) -> nat -> nat -> option value.
+Variable item_name : alt -> nat -> option string.
 Variable forced_msg : item -> string.
 Variable F : string -> bool.
 Hypothesis HF : prefixed tbl rs F.
@@ -170,7 +170,7 @@ Theorem first_sound :
      forall vs p', r = inl (vs, p') -> p < p' -> fd p (pf i)) /\
   (forall s e p r, psep s e p r -> lk_item rs s = true -> lk_item rs e = true -> not_gather s = true -> not_gather e = true ->
      forall l p', r = inl (l, p') -> p < p' -> fd p (sunion (pf e) (pf s))) /\
-  (forall ns p vals env cut r, pseq ns p vals env cut r -> lk_items rs ns = true ->
+  (forall a k ns p vals env cut r, pseq a k ns p vals env cut r -> lk_items rs ns = true ->
      forall vals' env' p', r = SSucc vals' env' p' -> p < p' ->
      forall res rem, inv p rem -> fd p (scan nulf pf ns res rem)) /\
   (forall alts p r, palts alts p r -> lk_alts rs alts = true -> forall v p', r = PSucc v p' -> p < p' ->
@@ -280,9 +280,10 @@ Proof.
       destruct (mem_str "" (eff (ni_item n))); [apply Hres; intros x Hx; apply scan_mono; exact Hx|].
       destruct (negb (nulf (ni_item n)) || is_pos (ni_item n)); [apply Hres; auto|apply Hres; intros x Hx; apply scan_mono; exact Hx].
   - (* alternatives: this one *)
-    injection H2 as ? ?; subst. cbn [lk_alts] in H1. apply andb_prop in H1 as [Hla _].
+    match goal with E : PSucc _ _ = PSucc _ _ |- _ => injection E as ? ?; subst end.
+    match goal with Hl : lk_alts rs (_ :: _) = true |- _ => cbn [lk_alts] in Hl; apply andb_prop in Hl as [Hla _] end.
     destruct a as [items act]. rewrite lk_alt_eq in Hla. cbn [alt_items] in *.
-    destruct (H0 Hla _ _ _ eq_refl H3 [] []) as (t & m & Ht & Hm & Hdesc); [intros d t []|].
+    match goal with Hlt : _ < _ |- _ => destruct (H0 Hla _ _ _ eq_refl Hlt [] []) as (t & m & Ht & Hm & Hdesc); [intros d t []|] end.
     exists t, m. split; [exact Ht|]. split; [|exact Hdesc]. cbn [pf_alts]. apply In_sunion. left. rewrite pf_alt_eq.
     apply In_sdiscard. split; [exact Hm|eapply describes_nonempty; exact Hdesc].
   - (* alternatives: a later one *)
